@@ -30,6 +30,15 @@ CLAIMS = {
  "C20": dict(level="other", ref="7/C20",
    text="Deductive core, proved for all objects: AnnotatedValue.__eq__ (also as inherited by Parameter), Constant.__eq__ and NamedQubit.__eq__ return exactly the field-wise comparison the property lists (name+kind; name+let value by numeric value; name+source register name+index) and False - never an exception - for objects lacking the fields; BlockStatement.__eq__ and LoopStatement.__eq__ are proved to return False whenever block kind, subcircuit annotation, subcircuit count or loop count differ, including the kind of a loop's body block (the discrimination clause for those tokens). Reflexivity/symmetry as whole-tree lemmas, equality of lists of statements and the relation to generated text are exercised by the bounded single-token-mutant matrix.",
    note="GateStatement/Register/Circuit/Macro/AbstractGate/UsePulsesStatement __eq__ (zip_longest over dict views, NaN handling, recursive list equality) are not under contract; list equality inside BlockStatement.__eq__ is an uninterpreted reflexive predicate in the proofs."),
+ "C01": dict(level="other", ref="7/C01",
+   text="Deductive part: (1) data lemmas over the lexer patterns extracted from slyparse.py on every run, decided by z3's regex theory for ALL strings: every string of the shape Python prints for a finite float is in L(NUMBER), every printed int is in L(INT) and not in L(NUMBER), no rule sly tries earlier matches a prefix of a printed literal, and a printed float is never cut into INT followed by an identifier; (2) generate_jaqal_value is proved to print identifiers by name and ints by str(). The round trip itself (generator -> sly LALR tables -> builder) cannot be expressed as a contract on repository functions (the tables exist only inside sly at import time): it is exercised by the bounded stand-in (programs + literal grid, byte-identical second generation).",
+   note="Assumed: sly lexes with Python re semantics over the master regex in class-body order; the shape of repr(float) (cross-checked natively on the grid). Not reached: sly's table construction."),
+ "C02": dict(level="other", ref="7/C02",
+   text="Deductive part: data lemmas for ALL strings - the block-comment pattern is prefix-free (a comment ends at the first */, nothing outside a comment is swallowed) and a line comment never contains a newline; contracts proved on the error path: JaqalParser.error / raise_error always raise JaqalParseError (also for the None token at end of input), compute_col never raises, returns 0 without text and a column >= 1 otherwise and does not treat index 0 as absent. 'Accepts exactly the grammar' and LALR error positions are properties of sly's generated automaton, not of any repository function: exercised by the bounded stand-in (independent expected statement trees, 9 layout rewritings per program, near-misses with position checks).",
+   note="Assumed: sly reduces along the derivation and calls error(token|None); the ~35 semantic actions are not individually under contract (covered by the expected-tree oracle of the bounded stand-in)."),
+ "C16": dict(level="other", ref="7/C16",
+   text="Deductive part, proved for all inputs: the exception-safety obligations (raises_only) of the functions on the reference-resolution path - Register.resolve_qubit / resolve_size / __getitem__, NamedQubit.__init__ / resolve_qubit, Parameter.validate raise nothing but JaqalError, exactly under the stated conditions; JaqalParser.error / raise_error / JaqalLexer.error always raise JaqalParseError and JaqalParseError.__init__ stores the position it is given; the lexer defines an error handler (AST scan). 'Whatever text' and 'no sticky state' are whole-input / whole-history claims: exercised by the bounded stand-in (grammar-guided mutants, 5 s watchdog, repeated processing with other texts in between).",
+   note="Not reached: termination and internal state of sly; import-state configuration of _import.py; Builder.* functions are not under contract (bounded only)."),
 }
 NA_REASON = "check not built yet in this round (work in progress; DESIGN.md section 7 gives the planned contracts)"
 
